@@ -992,3 +992,98 @@ def r11_4(ctx):
                "the list whose element is flagged was generated at %s; it must be regenerated inside the same iteration, otherwise flags of earlier best moves pile up and an already refuted move is searched (and sent) first" % (
                    [b.where(dl) for dl in whole]))
     ctx.floor("pv flag writes at the root", n, 1)
+
+
+def r7_6(ctx):
+    """The search ends only when the clock says so or every depth has been searched: each `return`
+    of get_best_move is reached through the expired edge of out_of_time(start, t) or through the
+    exit of the depth loop; and a recorded best move implies a sent move."""
+    f = ctx.facts
+    b = f.body(GBM)
+    ctx.note_fn(GBM)
+    ex = Exprs(b)
+    loops = b.loops()
+    if not loops:
+        raise ShapeNotRecognised("get_best_move: no loops")
+    outer = max(loops, key=lambda h: len(loops[h]))
+    ot_true = set()
+    for s, ft, tt, cb, own in ot_guards(b, ex):
+        if own and tt is not None and tt != ft:
+            ot_true.add((s, tt))
+    # exit edges of the depth loop: from the header's own condition
+    depth_exit = set()
+    for x in loops[outer]:
+        if b.term(x)["k"] == "switch" and not any(x in b2 and b2 < loops[outer] for b2 in loops.values()):
+            d = ex.switch_discr(x)
+            if d[0] == "bin" and d[1] in ("Lt", "Le", "Gt", "Ge") and any(y[0] == "const" for y in (d[2], d[3])):
+                for tg in b.succ.get(x, []):
+                    if tg not in loops[outer]:
+                        depth_exit.add((x, tg))
+    rets = b.return_blocks()
+    reach = b.reach_from(0, (), ot_true | depth_exit)
+    bad = [r for r in rets if r in reach]
+    where = b.file
+    if bad:
+        # name a block from which return is reached without those edges: the first block outside the
+        # normal flow that leads to return
+        for x in sorted(reach):
+            if b.term(x)["k"] in ("goto", "drop") and any(b.reaches(x, r, removed_edges=ot_true | depth_exit) for r in bad) and x in loops[outer]:
+                pass
+        for loc, st in b.iter_stmts():
+            if st["k"] == "assign" and st["place"]["local"] == 0 and loc[0] in reach and loc[0] in loops[outer]:
+                where = b.where(loc)
+    ctx.ob("get_best_move:returns-only-on-expiry-or-last-depth", not bad, where,
+           "every return of the search is behind the expired edge of out_of_time(start, t) or the end of the depth loop%s" % (
+               "" if not bad else ": NOT so — the search can stop early on another condition, leaving root moves of the current depth unexamined"))
+    ctx.floor("expiry edges in get_best_move", len(ot_true), 1)
+    # best_move recorded => a move was sent in the same region
+    sends = [bb for bb, t in b.iter_calls() if (callee_of(t) or "").endswith("Sender::<T>::send")]
+    n = 0
+    for loc, st in b.iter_stmts():
+        if st["k"] == "assign" and not st["place"]["proj"] and b.local_ty(st["place"]["local"]) == "std::option::Option<board::BoardState>":
+            e = ex.rvalue(st["rv"], loc)
+            if e[0] == "agg" and e[2] == "Some":
+                n += 1
+                from .hash import control_equivalent
+                ok = any(control_equivalent(b, loc[0], sb) for sb in sends)
+                ctx.ob("get_best_move:best_move-recorded-implies-sent#%d" % n, ok, b.where(loc),
+                       "`%s = Some(..)` happens exactly when a move is sent on the channel (the fallback relies on `best_move.is_none()` meaning 'nothing sent yet')" % b.lname(st["place"]["local"]))
+    ctx.floor("best_move recordings", n, 1)
+
+
+VEC_OK = ("::sort_unstable_by_key", "::sort_by_key", "::sort_unstable_by", "::sort_by", "::into_iter", "::iter", "::iter_mut", "::is_empty", "::len", "::index", "::index_mut",
+          "::deref", "::deref_mut", "::as_slice", "::as_mut_slice", "::first", "::get", "::skip", "Clone>::clone", "::swap")
+
+
+def r12_6(ctx):
+    """The list that is searched is the list that was generated: between generate_moves and the
+    searches the move list is only reordered and annotated, never filtered or truncated."""
+    f = ctx.facts
+    n = 0
+    for fn in (GBM, ABS, QUIESCE):
+        b = f.body(fn)
+        ctx.note_fn(fn)
+        ex = Exprs(b)
+        vecs = [l for l in range(len(b.locals)) if b.local_ty(l) == "std::vec::Vec<board::BoardState>" and l in b.names]
+        for v in vecs:
+            for bb, t in b.iter_calls():
+                c = callee_of(t) or ""
+                hit = False
+                for a in t["args"]:
+                    al = operand_alias(b, a)
+                    if al and al[0] == v:
+                        hit = True
+                if not hit:
+                    # slice methods reached through deref_mut temporaries
+                    args = ex.call_args(bb)
+                    hit = any(root_local(x) == v for a in args for x in [strip_refs(a)] if x[0] == "call" and x[1].endswith("deref_mut")) or \
+                        any(any(y[0] == "call" and y[1].endswith("::deref_mut") and root_local(y[2][0]) == v for y in subexprs(a)) for a in args)
+                if not hit or c == GEN or t["k"] != "call":
+                    continue
+                n += 1
+                ok = any(c.endswith(sfx) for sfx in VEC_OK) or c in (ABS, QUIESCE) or c.endswith("Sender::<T>::send") or c.startswith("search::Search::")
+                if not ok:
+                    ctx.ob("%s:%s:list-mutated-by:%s" % (fn.split("::")[-1], b.lname(v), c.split("::")[-1]), False, b.where(b.term_loc(bb)),
+                           "`%s` is applied to the generated move list `%s`: the list may be reordered and annotated but not filtered, truncated or extended, otherwise the search is not over the engine's own move generation" % (c, b.lname(v)))
+    ctx.ob("move-lists-only-reordered", True, "", "%d uses of generated move lists examined" % n, nontrivial=False)
+    ctx.floor("uses of move lists", n, 6)
